@@ -13,11 +13,11 @@ from .common import Check, coq_list
 TRUSTED = [
     'Coq 8.16.1 kernel and vm_compute (two finite calendar sweeps over 1900-2199 are evaluated by vm_compute; the bound '
     'is stated in the theorems); axioms: none',
-    'translator translate/py2v.py target dates: utils.find_days_to_exclude (over the pieces of each entry's text), utils.expand_time_windows and TimeWindow.__post_init__ are regenerated into '
+    'translator translate/py2v.py target dates: utils.find_days_to_exclude (over the pieces of the text of each entry), utils.expand_time_windows and TimeWindow.__post_init__ are regenerated into '
     'gen/Gen_Dates.v on every run (days as integer day numbers; pd.date_range(a, b, freq="D") read as the integer range a..b, '
     'list(set(l)) as duplicate removal, isinstance(x, pd.Timestamp) as true) and proved equal to the model (proofs/DatesBridge.v)',
-    'modelled, not verified: pandas.Timestamp parsing of the documented YYYY/MM/DD form, the string splitting in '
-    'find_days_to_exclude and pandas.date_range; hand-written model/Dates.v tied by executed correspondence',
+    'modelled, not verified: which texts pandas.Timestamp accepts (documented YYYY/MM/DD form), str.split and '
+    'pandas.date_range; hand-written model/Dates.v tied by executed correspondence',
     'harness: strings are built from structured (year, month, day) specifications; expected days by datetime.date',
 ]
 
